@@ -65,7 +65,7 @@ TASK_RULE = ("one in-memory replica: arbitrary stored task maps over the recogni
              "WorkingSet, DependencyMap and Replica under catch_unwind; working-set rebuilds")
 
 HIST_Q = {"cases": 400, "max_len": 30}
-HIST_T = {"cases": 20000, "max_len": 80}
+HIST_T = {"cases": 8000, "max_len": 80}
 
 PROPS = {
     "C01": {
@@ -93,7 +93,7 @@ PROPS = {
                      "Tc.C02_inflight_invariant", "Tc.C02_pending_changes", "Tc.C01_exec_reachable"],
         "leanchecker_modules": ["TcVerif.Proofs.SyncInv", "TcVerif.Proofs.SyncExec"],
         "runs": [
-            {"family": "hist", "flags": ["--stepped"], "quick": {"cases": 400, "max_len": 40}, "thorough": {"cases": 20000, "max_len": 90}},
+            {"family": "hist", "flags": ["--stepped"], "quick": {"cases": 400, "max_len": 40}, "thorough": {"cases": 6000, "max_len": 90}},
         ],
         "judge_preds": ["converged", "invariant", "no-out-of-sync"],
         "nontrivial": nt_reject,
@@ -110,8 +110,8 @@ PROPS = {
                      "Tc.C04_repeat_converges", "Tc.C04_never_stuck", "Tc.C01_exec_reachable"],
         "leanchecker_modules": ["TcVerif.Proofs.Ot", "TcVerif.Proofs.SyncInv"],
         "runs": [
-            {"family": "hist", "flags": ["--faults"], "quick": {"cases": 400, "max_len": 35}, "thorough": {"cases": 15000, "max_len": 80}},
-            {"family": "hist", "flags": ["--faults", "--stepped"], "quick": {"cases": 150, "max_len": 40}, "thorough": {"cases": 8000, "max_len": 80}},
+            {"family": "hist", "flags": ["--faults"], "quick": {"cases": 400, "max_len": 35}, "thorough": {"cases": 6000, "max_len": 80}},
+            {"family": "hist", "flags": ["--faults", "--stepped"], "quick": {"cases": 150, "max_len": 40}, "thorough": {"cases": 3000, "max_len": 80}},
         ],
         "judge_preds": ["converged", "invariant", "no-out-of-sync"],
         "nontrivial": nt_fault,
@@ -128,8 +128,8 @@ PROPS = {
                      "Tc.C12_nonempty_never_replaced", "Tc.C12_urgency_gate", "Tc.C01_exec_reachable"],
         "leanchecker_modules": ["TcVerif.Proofs.SyncInv"],
         "runs": [
-            {"family": "hist", "flags": ["--snapshots"], "quick": {"cases": 300, "max_len": 35}, "thorough": {"cases": 10000, "max_len": 80}},
-            {"family": "hist", "flags": ["--snapshots", "--stepped"], "quick": {"cases": 100, "max_len": 35}, "thorough": {"cases": 5000, "max_len": 80}},
+            {"family": "hist", "flags": ["--snapshots"], "quick": {"cases": 300, "max_len": 35}, "thorough": {"cases": 4000, "max_len": 80}},
+            {"family": "hist", "flags": ["--snapshots", "--stepped"], "quick": {"cases": 100, "max_len": 35}, "thorough": {"cases": 1500, "max_len": 80}},
         ],
         "judge_preds": ["snapshot", "converged", "invariant"],
         "nontrivial": nt_snapshot,
@@ -148,7 +148,7 @@ PROPS = {
                      "Tc.rebase_symm", "Tc.C01_exec_reachable"],
         "leanchecker_modules": ["TcVerif.Proofs.Ot", "TcVerif.Proofs.RebaseSymm"],
         "runs": [
-            {"family": "hist", "flags": ["--conflicts"], "quick": {"cases": 250, "max_len": 30}, "thorough": {"cases": 12000, "max_len": 30}},
+            {"family": "hist", "flags": ["--conflicts"], "quick": {"cases": 250, "max_len": 30}, "thorough": {"cases": 6000, "max_len": 30}},
         ],
         "judge_preds": ["orderindep", "winner", "converged", "invariant"],
         "nontrivial": lambda imp, ops: sum(1 for l in ops if l.startswith("C ") and " update 1 " in l) >= 2,
@@ -213,7 +213,7 @@ PROPS = {
             {"family": "rep", "flags": [], "quick": {"cases": 400, "max_len": 25}, "thorough": {"cases": 20000, "max_len": 60}},
             {"family": "hist", "flags": ["--conflicts"], "quick": {"cases": 120, "max_len": 30}, "thorough": {"cases": 4000, "max_len": 30}},
             # "a concurrent edit elsewhere does not bring it back" also needs the editing API to record only valid operations
-            {"family": "task", "flags": [], "quick": {"cases": 150, "max_len": 40}, "thorough": {"cases": 5000, "max_len": 80}},
+            {"family": "task", "flags": [], "quick": {"cases": 150, "max_len": 40}, "thorough": {"cases": 2000, "max_len": 60}},
         ],
         "judge_preds": ["expire", "orderindep", "converged", "api-valid"],
         "nontrivial": lambda imp, ops: any(l.startswith("expire ok ") and l != "expire ok 0" for l in imp),
@@ -229,7 +229,7 @@ PROPS = {
                      "Tc.C16_rows_add_index", "Tc.C16_rows_add_vec", "Tc.C16_rows_set_vec"],
         "leanchecker_modules": [],
         "runs": [
-            {"family": "store", "flags": [], "quick": {"cases": 500, "max_len": 60}, "thorough": {"cases": 25000, "max_len": 120}},
+            {"family": "store", "flags": [], "quick": {"cases": 500, "max_len": 60}, "thorough": {"cases": 12000, "max_len": 120}},
         ],
         "judge_preds": ["equiv"],
         "nontrivial": lambda imp, ops: sum(1 for l in ops if l == "commit") >= 1 and len(ops) >= 20,
@@ -270,7 +270,7 @@ PROPS = {
                      "Tc.C18_malformed_dependency_ignored", "Tc.C18_status_total", "Tc.C18_ws_slot0_invariant", "Tc.C18_ws_assert_unreachable"],
         "leanchecker_modules": [],
         "runs": [
-            {"family": "task", "flags": [], "quick": {"cases": 400, "max_len": 40}, "thorough": {"cases": 20000, "max_len": 80}},
+            {"family": "task", "flags": [], "quick": {"cases": 400, "max_len": 40}, "thorough": {"cases": 4000, "max_len": 60}},
         ],
         "source_ties": ["panic_sites.py"],
         "judge_preds": ["no-panic"],
@@ -286,7 +286,7 @@ PROPS = {
                      "Tc.C19_read_back", "Tc.C19_other_keys_kept", "Tc.C19_depmap_exact"],
         "leanchecker_modules": [],
         "runs": [
-            {"family": "task", "flags": [], "quick": {"cases": 400, "max_len": 40}, "thorough": {"cases": 20000, "max_len": 80}},
+            {"family": "task", "flags": [], "quick": {"cases": 400, "max_len": 40}, "thorough": {"cases": 4000, "max_len": 60}},
         ],
         "judge_preds": ["api-valid", "old-values", "object", "end-rule", "reserved", "modified-once", "depmap"],
         "nontrivial": lambda imp, ops: sum(1 for l in ops if l.startswith("M ")) >= 3 and any(l == "P" for l in ops),
